@@ -50,3 +50,44 @@ def check_float_results(run, program, func_keys, rule="F-DTYPE/result-not-input-
         else:
             run.holds(rule, c, where(f), "results are allocated/returned in the default float dtype, never in the input's dtype")
     return n
+
+
+NARROW_INTS = {"uint8", "int8", "uint16", "int16", "uint32", "int32", "ubyte", "byte", "short", "ushort", "intc", "uintc", "half"}
+
+
+def check_no_narrow_index_dtype(run, program, files, rule="F-DTYPE/index-width"):
+    """Variables that hold element indices or element counts are INT_DTYPE in the Grid: a store under a schema name whose value was cast to a narrower integer type
+    (`.astype(np.uint8)`, `dtype=np.int16`) wraps around for the first mesh that exceeds it - a count above 255 (polygon faces read from shapefiles have thousands of
+    corners), an index above 32767."""
+    from ..astutil import LocalDefs, str_const
+    n = 0
+    for f in program.all_functions():
+        if f.module.relpath not in files:
+            continue
+        defs = None
+        for st in ast.walk(f.node):
+            if not (isinstance(st, ast.Assign) and isinstance(st.targets[0], ast.Subscript)):
+                continue
+            key = str_const(st.targets[0].slice)
+            if not key or not (key.endswith("_connectivity") or key.startswith("n_") or key.endswith("_indices")):
+                continue
+            defs = defs or LocalDefs(f.node)
+            n += 1
+            nodes, _ = defs.closure(st.value)
+            narrow = None
+            for e in nodes:
+                for x in ast.walk(e):
+                    if isinstance(x, ast.Call):
+                        cands = list(x.args[:1]) if (isinstance(x.func, ast.Attribute) and x.func.attr == "astype") else []
+                        cands += [k.value for k in x.keywords if k.arg == "dtype"]
+                        for d in cands:
+                            nm = d.attr if isinstance(d, ast.Attribute) else d.id if isinstance(d, ast.Name) else (d.value if isinstance(d, ast.Constant) and isinstance(d.value, str) else None)
+                            if nm in NARROW_INTS:
+                                narrow = (x, nm)
+            c = f"{f.key}:store[{key}]:index-width"
+            if narrow:
+                run.violation(rule, c, where(f, st), f"{key} is stored after `{norm(narrow[0])[:50]}`: values above the range of {narrow[1]} wrap around (a count of 300 becomes 44)")
+            else:
+                run.holds(rule, c, where(f, st), "no narrowing cast on the way into the store")
+    return n
+
